@@ -94,14 +94,21 @@ def instr_modset(V, fn, x, stack):
     elif op == 'Convert':
         if prog.kind(x['type']) == 'slice':
             out |= {('alloc', 'arr'), ('el', prog.under(x['type'])[1]['elem'])}
-    elif op in ('Call', 'Defer', 'Go'):
+    elif op in ('Call', 'Defer'):
         out |= call_modset(V, fn, x, stack)
-    elif op in ('Send',):
-        out |= V.externals.get('chan:modset', lambda *a: set())(V, x)
+    elif op in ('Send', 'MakeChan'):
+        from .chans import chan_modset
+        out |= chan_modset(V, x)
+        if op == 'MakeChan':
+            out |= {('alloc', 'chan')}
     elif op == 'UnOp' and x['tok'] == '<-':
-        out |= V.externals.get('chan:modset', lambda *a: set())(V, x)
+        from .chans import chan_modset
+        out |= chan_modset(V, x)
     elif op == 'Next':
-        out |= V.externals.get('chan:modset', lambda *a: set())(V, x)
+        out |= set(getattr(V, 'range_keys', {}).values())
+    elif op == 'Go':
+        from .chans import chan_modset
+        out |= chan_modset(V, x) | call_modset(V, fn, x, stack)
     return out
 
 
@@ -119,6 +126,9 @@ def call_modset(V, fn, x, stack):
             return set(m(V))
         if key in V.externals:
             return set()
+        from .calls import generic_external_ok
+        if generic_external_ok(key):
+            return {('alloc', 'arr'), ('alloc', 'iface')}
         raise OutOfSubset('modset of interface call ' + key)
     cal = x['callee']
     if cal['k'] == 'builtin':
@@ -131,7 +141,8 @@ def call_modset(V, fn, x, stack):
             mt = x['args'][0]['type']
             return {('mdom', mt), ('msize', mt)}
         if n == 'close':
-            return V.externals.get('chan:modset', lambda *a: set())(V, x)
+            from .chans import chan_modset
+            return chan_modset(V, x)
         return set()
     key = x.get('static')
     if key is None:
@@ -155,6 +166,9 @@ def call_modset(V, fn, x, stack):
         if key in stack:
             return set()
         return func_modset(V, key, stack + [key])
+    from .calls import generic_external_ok
+    if generic_external_ok(key):
+        return {('alloc', 'arr'), ('alloc', 'iface')}
     raise OutOfSubset('modset: unknown callee ' + key)
 
 
